@@ -1,3 +1,543 @@
 import CwMt.Model.EngineSpec
+import CwMt.Proofs.Engine_Basic
+import CwMt.Proofs.Engine_Call
+import CwMt.Proofs.Engine_Fuel
+import CwMt.Proofs.Engine_Trace
+import CwMt.Proofs.Prefix
+/-
+  CwMt.Proofs.Engine — the lemmas referenced by CwMt/Props/C01, C02, C03, C05, C08.
+  Structure:
+    Engine_Basic  unfolding equations of the mutual block, `callThen` / `mapResp`, `AMap` lemmas
+    Engine_Call   one `callContract`; state frames of the non-recursive steps; `execute_shape`
+    Engine_Fuel   fuel monotonicity (4-way induction)
+    Engine_Trace  trace growth + env + senders + storage frame (one 4-way induction, `specAt`)
+-/
 namespace CwMt.Engine
+open CwMt
+variable {E : Type}
+
+/-! ## C01 -/
+
+theorem atomically_not_ok {α : Type} (ch : Chain E) (x : Outcome (α × Chain E) × Trace)
+    (r : Outcome α) (ch' : Chain E) (tr : Trace)
+    (h : App.atomically ch x = (r, ch', tr)) (hr : r.isOk = false) : ch' = ch := by
+  obtain ⟨o, t⟩ := x
+  cases o with
+  | ok p =>
+    simp only [App.atomically, Prod.mk.injEq] at h
+    rw [← h.1] at hr
+    simp [Outcome.isOk] at hr
+  | err => simp only [App.atomically, Prod.mk.injEq] at h; exact h.2.1.symm
+  | panic => simp only [App.atomically, Prod.mk.injEq] at h; exact h.2.1.symm
+  | outOfFuel => simp only [App.atomically, Prod.mk.injEq] at h; exact h.2.1.symm
+
+theorem atomically_ok {α : Type} (ch : Chain E) (x : Outcome (α × Chain E) × Trace)
+    (a : α) (ch' : Chain E) (tr : Trace)
+    (h : App.atomically ch x = (.ok a, ch', tr)) : x = (.ok (a, ch'), tr) := by
+  obtain ⟨o, t⟩ := x
+  cases o with
+  | ok p =>
+    obtain ⟨a0, c0⟩ := p
+    simp only [App.atomically, Prod.mk.injEq, Outcome.ok.injEq] at h
+    obtain ⟨rfl, rfl, rfl⟩ := h
+    rfl
+  | err => simp [App.atomically] at h
+  | panic => simp [App.atomically] at h
+  | outOfFuel => simp [App.atomically] at h
+
+theorem atomic_execute_multi (cfg : Config E) (blk : Block) (fuel : Nat) (ch : Chain E) (sender : Addr)
+    (msgs : List Msg) (r : Outcome (List AppResponse)) (ch' : Chain E) (tr : Trace)
+    (h : App.executeMulti cfg blk fuel ch sender msgs = (r, ch', tr)) (hr : r.isOk = false) : ch' = ch :=
+  atomically_not_ok ch _ r ch' tr h hr
+
+theorem atomic_sudo (cfg : Config E) (blk : Block) (fuel : Nat) (ch : Chain E) (m : SudoMsg)
+    (r : Outcome AppResponse) (ch' : Chain E) (tr : Trace)
+    (h : App.sudo cfg blk fuel ch m = (r, ch', tr)) (hr : r.isOk = false) : ch' = ch :=
+  atomically_not_ok ch _ r ch' tr h hr
+
+theorem atomic_wasm_sudo (cfg : Config E) (blk : Block) (fuel : Nat) (ch : Chain E) (c : Addr) (m : Val)
+    (r : Outcome AppResponse) (ch' : Chain E) (tr : Trace)
+    (h : App.wasmSudo cfg blk fuel ch c m = (r, ch', tr)) (hr : r.isOk = false) : ch' = ch :=
+  atomically_not_ok ch _ r ch' tr h hr
+
+theorem ok_persists (cfg : Config E) (blk : Block) (fuel : Nat) (ch : Chain E) (sender : Addr)
+    (msgs : List Msg) (rs : List AppResponse) (ch' : Chain E) (tr : Trace)
+    (h : App.executeMulti cfg blk fuel ch sender msgs = (.ok rs, ch', tr)) :
+    App.runMsgs cfg blk fuel ch sender msgs [] = (.ok (rs, ch'), tr) :=
+  atomically_ok ch _ rs ch' tr h
+
+/-- one step of `runMsgs` in terms of `Outcome`-case analysis on the head and on the tail -/
+theorem runMsgs_cons (cfg : Config E) (blk : Block) (fuel : Nat) (ch : Chain E) (sender : Addr)
+    (m : Msg) (ms : List Msg) (tr : Trace) :
+    App.runMsgs cfg blk fuel ch sender (m :: ms) tr =
+      (match execute cfg blk fuel ch sender m tr with
+      | (.ok (r, ch1), tr1) =>
+        (match App.runMsgs cfg blk fuel ch1 sender ms tr1 with
+        | (.ok (rs, ch2), tr2) => (.ok (r :: rs, ch2), tr2)
+        | (.err, tr2) => (.err, tr2)
+        | (.panic, tr2) => (.panic, tr2)
+        | (.outOfFuel, tr2) => (.outOfFuel, tr2))
+      | (.err, tr1) => (.err, tr1)
+      | (.panic, tr1) => (.panic, tr1)
+      | (.outOfFuel, tr1) => (.outOfFuel, tr1)) := by
+  rw [App.runMsgs]
+  rcases execute cfg blk fuel ch sender m tr with ⟨o, t⟩
+  cases o with
+  | ok p =>
+    obtain ⟨r, ch1⟩ := p
+    simp only []
+    rcases App.runMsgs cfg blk fuel ch1 sender ms t with ⟨o2, t2⟩
+    cases o2 with
+    | ok p2 => obtain ⟨a, b⟩ := p2; rfl
+    | _ => rfl
+  | _ => rfl
+
+theorem multi_length (cfg : Config E) (blk : Block) (fuel : Nat) (ch : Chain E) (sender : Addr)
+    (msgs : List Msg) (tr : Trace) (rs : List AppResponse) (ch' : Chain E) (tr' : Trace)
+    (h : App.runMsgs cfg blk fuel ch sender msgs tr = (.ok (rs, ch'), tr')) : rs.length = msgs.length := by
+  induction msgs generalizing ch tr rs with
+  | nil =>
+    simp only [App.runMsgs, Prod.mk.injEq, Outcome.ok.injEq] at h
+    rw [← h.1.1]; rfl
+  | cons m ms ih =>
+    rw [runMsgs_cons] at h
+    generalize execute cfg blk fuel ch sender m tr = x at h ⊢
+    obtain ⟨o, t⟩ := x
+    cases o with
+    | ok p =>
+      obtain ⟨r, ch1⟩ := p
+      simp only [] at h
+      rcases hx : App.runMsgs cfg blk fuel ch1 sender ms t with ⟨o2, t2⟩
+      rw [hx] at h
+      cases o2 with
+      | ok p2 =>
+        obtain ⟨rs2, ch2⟩ := p2
+        simp only [Prod.mk.injEq, Outcome.ok.injEq] at h
+        obtain ⟨⟨rfl, rfl⟩, rfl⟩ := h
+        rw [List.length_cons, List.length_cons, ih ch1 t rs2 hx]
+      | err => simp at h
+      | panic => simp at h
+      | outOfFuel => simp at h
+    | err => simp at h
+    | panic => simp at h
+    | outOfFuel => simp at h
+
+theorem atomic_execute (cfg : Config E) (blk : Block) (fuel : Nat) (ch : Chain E) (sender : Addr)
+    (m : Msg) (r : Outcome AppResponse) (ch' : Chain E) (tr : Trace)
+    (h : App.execute cfg blk fuel ch sender m = (r, ch', tr)) (hr : r.isOk = false) : ch' = ch := by
+  unfold App.execute at h
+  rcases hx : App.executeMulti cfg blk fuel ch sender [m] with ⟨o, c, t⟩
+  rw [hx] at h
+  cases o with
+  | ok rs =>
+    have hlen := multi_length cfg blk fuel ch sender [m] [] rs c t (ok_persists cfg blk fuel ch sender [m] rs c t hx)
+    match rs, hlen with
+    | [r0], _ =>
+      simp only [Prod.mk.injEq] at h
+      rw [← h.1] at hr
+      simp [Outcome.isOk] at hr
+  | err =>
+    simp only [Prod.mk.injEq] at h
+    rw [← h.2.1]
+    exact atomic_execute_multi cfg blk fuel ch sender [m] _ c t hx rfl
+  | panic =>
+    simp only [Prod.mk.injEq] at h
+    rw [← h.2.1]
+    exact atomic_execute_multi cfg blk fuel ch sender [m] _ c t hx rfl
+  | outOfFuel =>
+    simp only [Prod.mk.injEq] at h
+    rw [← h.2.1]
+    exact atomic_execute_multi cfg blk fuel ch sender [m] _ c t hx rfl
+
+theorem multi_in_order_ok (cfg : Config E) (blk : Block) (fuel : Nat) (ch : Chain E) (sender : Addr)
+    (ms₁ ms₂ : List Msg) (tr : Trace) (rs₁ : List AppResponse) (ch₁ : Chain E) (tr₁ : Trace)
+    (h : App.runMsgs cfg blk fuel ch sender ms₁ tr = (.ok (rs₁, ch₁), tr₁)) :
+    App.runMsgs cfg blk fuel ch sender (ms₁ ++ ms₂) tr =
+      (match App.runMsgs cfg blk fuel ch₁ sender ms₂ tr₁ with
+       | (.ok (rs₂, ch₂), tr₂) => (.ok (rs₁ ++ rs₂, ch₂), tr₂)
+       | (.err, tr₂) => (.err, tr₂)
+       | (.panic, tr₂) => (.panic, tr₂)
+       | (.outOfFuel, tr₂) => (.outOfFuel, tr₂)) := by
+  induction ms₁ generalizing ch tr rs₁ with
+  | nil =>
+    simp only [App.runMsgs, Prod.mk.injEq, Outcome.ok.injEq] at h
+    obtain ⟨⟨rfl, rfl⟩, rfl⟩ := h
+    rw [List.nil_append]
+    rcases App.runMsgs cfg blk fuel ch sender ms₂ tr with ⟨o, t⟩
+    cases o with
+    | ok p => obtain ⟨a, b⟩ := p; rfl
+    | _ => rfl
+  | cons m ms ih =>
+    rw [List.cons_append, runMsgs_cons]
+    rw [runMsgs_cons] at h
+    generalize execute cfg blk fuel ch sender m tr = x at h ⊢
+    obtain ⟨o, t⟩ := x
+    cases o with
+    | ok p =>
+      obtain ⟨r, ch1⟩ := p
+      simp only [] at h ⊢
+      rcases hx : App.runMsgs cfg blk fuel ch1 sender ms t with ⟨o2, t2⟩
+      rw [hx] at h
+      cases o2 with
+      | ok p2 =>
+        obtain ⟨rs2, ch2⟩ := p2
+        simp only [Prod.mk.injEq, Outcome.ok.injEq] at h
+        obtain ⟨⟨rfl, rfl⟩, rfl⟩ := h
+        rw [ih ch1 t rs2 hx]
+        rcases App.runMsgs cfg blk fuel ch2 sender ms₂ t2 with ⟨o3, t3⟩
+        cases o3 with
+        | ok p3 => obtain ⟨a, b⟩ := p3; rfl
+        | _ => rfl
+      | err => simp at h
+      | panic => simp at h
+      | outOfFuel => simp at h
+    | err => simp at h
+    | panic => simp at h
+    | outOfFuel => simp at h
+
+theorem multi_first_error_aborts (cfg : Config E) (blk : Block) (fuel : Nat) (ch : Chain E) (sender : Addr)
+    (ms₁ ms₂ : List Msg) (tr : Trace) (o : Outcome (List AppResponse × Chain E)) (tr₁ : Trace)
+    (h : App.runMsgs cfg blk fuel ch sender ms₁ tr = (o, tr₁)) (ho : o.isOk = false) :
+    App.runMsgs cfg blk fuel ch sender (ms₁ ++ ms₂) tr = (o, tr₁) := by
+  induction ms₁ generalizing ch tr with
+  | nil =>
+    simp only [App.runMsgs, Prod.mk.injEq] at h
+    rw [← h.1] at ho
+    simp [Outcome.isOk] at ho
+  | cons m ms ih =>
+    rw [List.cons_append, runMsgs_cons]
+    rw [runMsgs_cons] at h
+    generalize execute cfg blk fuel ch sender m tr = x at h ⊢
+    obtain ⟨o1, t⟩ := x
+    cases o1 with
+    | ok p =>
+      obtain ⟨r, ch1⟩ := p
+      simp only [] at h ⊢
+      rcases hx : App.runMsgs cfg blk fuel ch1 sender ms t with ⟨o2, t2⟩
+      rw [hx] at h
+      cases o2 with
+      | ok p2 =>
+        obtain ⟨rs2, ch2⟩ := p2
+        simp only [Prod.mk.injEq] at h
+        rw [← h.1] at ho
+        simp [Outcome.isOk] at ho
+      | err => cases h; rw [ih ch1 t hx]
+      | panic => cases h; rw [ih ch1 t hx]
+      | outOfFuel => cases h; rw [ih ch1 t hx]
+    | err => exact h
+    | panic => exact h
+    | outOfFuel => exact h
+
+/-! ## C02 -/
+
+theorem failed_sub_discarded (cfg : Config E) (blk : Block) (fuel : Nat) (ch : Chain E) (contract : Addr)
+    (sm : SubMsg) (tr tr₁ : Trace)
+    (h : execute cfg blk fuel ch contract sm.msg tr = (.err, tr₁)) :
+    executeSubmsg cfg blk (fuel + 1) ch contract sm tr =
+      (if wantsReplyOnErr sm.replyOn then reply cfg blk fuel ch contract ⟨sm.id, sm.payload, .err⟩ tr₁
+       else (.err, tr₁)) := by
+  rw [executeSubmsg_succ, h]
+
+theorem caught_iff (cfg : Config E) (blk : Block) (fuel : Nat) (ch : Chain E) (contract : Addr)
+    (sm : SubMsg) (tr tr₁ : Trace)
+    (h : execute cfg blk fuel ch contract sm.msg tr = (.err, tr₁)) :
+    (executeSubmsg cfg blk (fuel + 1) ch contract sm tr).1.isOk = true ↔
+      (wantsReplyOnErr sm.replyOn = true ∧
+        (reply cfg blk fuel ch contract ⟨sm.id, sm.payload, .err⟩ tr₁).1.isOk = true) := by
+  rw [failed_sub_discarded cfg blk fuel ch contract sm tr tr₁ h]
+  by_cases hw : wantsReplyOnErr sm.replyOn = true
+  · simp [hw]
+  · simp [hw, Outcome.isOk]
+
+theorem ok_sub_visible (cfg : Config E) (blk : Block) (fuel : Nat) (ch ch₁ : Chain E) (contract : Addr)
+    (sm : SubMsg) (tr tr₁ : Trace) (r : AppResponse)
+    (h : execute cfg blk fuel ch contract sm.msg tr = (.ok (r, ch₁), tr₁)) :
+    executeSubmsg cfg blk (fuel + 1) ch contract sm tr =
+      (if wantsReplyOnOk sm.replyOn then
+        (match reply cfg blk fuel ch₁ contract ⟨sm.id, sm.payload, .ok r.events r.data⟩ tr₁ with
+         | (.ok (rr, ch₂), tr₂) => (.ok ({ events := r.events ++ rr.events, data := rr.data }, ch₂), tr₂)
+         | other => other)
+       else (.ok ({ r with data := none }, ch₁), tr₁)) := by
+  rw [executeSubmsg_succ, h]
+  rfl
+
+theorem reply_failure_propagates (cfg : Config E) (blk : Block) (fuel : Nat) (ch ch₁ : Chain E)
+    (contract : Addr) (sm : SubMsg) (tr tr₁ tr₂ : Trace) (r : AppResponse)
+    (h : execute cfg blk fuel ch contract sm.msg tr = (.ok (r, ch₁), tr₁))
+    (hw : wantsReplyOnOk sm.replyOn = true)
+    (hr : reply cfg blk fuel ch₁ contract ⟨sm.id, sm.payload, .ok r.events r.data⟩ tr₁ = (.err, tr₂)) :
+    executeSubmsg cfg blk (fuel + 1) ch contract sm tr = (.err, tr₂) := by
+  rw [ok_sub_visible cfg blk fuel ch ch₁ contract sm tr tr₁ r h, if_pos hw, hr]
+
+theorem siblings_in_order (cfg : Config E) (blk : Block) (fuel : Nat) (ch : Chain E) (contract : Addr)
+    (resp : AppResponse) (sm : SubMsg) (rest : List SubMsg) (tr : Trace) :
+    processResponse cfg blk (fuel + 1) ch contract resp (sm :: rest) tr =
+      (match executeSubmsg cfg blk fuel ch contract sm tr with
+       | (.ok (sr, ch₁), tr₁) =>
+         processResponse cfg blk fuel ch₁ contract
+           { events := resp.events ++ sr.events, data := sr.data.orElse fun _ => resp.data } rest tr₁
+       | other => other) :=
+  processResponse_succ_cons cfg blk fuel ch contract resp sm rest tr
+
+theorem uncaught_propagates (cfg : Config E) (blk : Block) (fuel : Nat) (ch : Chain E) (contract : Addr)
+    (resp : AppResponse) (sm : SubMsg) (rest : List SubMsg) (tr tr₁ : Trace)
+    (h : executeSubmsg cfg blk fuel ch contract sm tr = (.err, tr₁)) :
+    processResponse cfg blk (fuel + 1) ch contract resp (sm :: rest) tr = (.err, tr₁) := by
+  rw [processResponse_succ_cons, h]
+
+/-! ## C03 -/
+
+theorem trace_grows_execute (cfg : Config E) (blk : Block) (fuel : Nat) (ch : Chain E) (sender : Addr)
+    (m : Msg) (tr : Trace) : ∃ new, (execute cfg blk fuel ch sender m tr).2 = tr ++ new := by
+  obtain ⟨new, e, _⟩ := (specAt cfg blk fuel).1 ch sender m tr
+  exact ⟨new, e⟩
+
+theorem trace_grows_processResponse (cfg : Config E) (blk : Block) (fuel : Nat) (ch : Chain E) (c : Addr)
+    (r : AppResponse) (l : List SubMsg) (tr : Trace) :
+    ∃ new, (processResponse cfg blk fuel ch c r l tr).2 = tr ++ new := by
+  obtain ⟨new, e, _⟩ := (specAt cfg blk fuel).2.1 ch c r l tr
+  exact ⟨new, e⟩
+
+theorem trace_grows_executeSubmsg (cfg : Config E) (blk : Block) (fuel : Nat) (ch : Chain E) (c : Addr)
+    (sm : SubMsg) (tr : Trace) : ∃ new, (executeSubmsg cfg blk fuel ch c sm tr).2 = tr ++ new := by
+  obtain ⟨new, e, _⟩ := (specAt cfg blk fuel).2.2.1 ch c sm tr
+  exact ⟨new, e⟩
+
+theorem trace_grows_reply (cfg : Config E) (blk : Block) (fuel : Nat) (ch : Chain E) (c : Addr)
+    (rp : Reply) (tr : Trace) : ∃ new, (reply cfg blk fuel ch c rp tr).2 = tr ++ new := by
+  obtain ⟨new, e, _⟩ := (specAt cfg blk fuel).2.2.2 ch c rp tr
+  exact ⟨new, e⟩
+
+/-- the trace of `callThen`: nothing (unknown contract / code), or the call entry followed by
+whatever the response processing appended -/
+theorem callThen_trace (cfg : Config E) (blk : Block) (fuel : Nat) (ch : Chain E) (addr : Addr) (en : Entry)
+    (custom : Event) (tr : Trace) :
+    (callThen cfg blk fuel ch addr en custom tr).2 = tr ∨
+    ∃ note rest, (callThen cfg blk fuel ch addr en custom tr).2 =
+      tr ++ [⟨addr, en, contractEnv blk addr, note⟩] ++ rest := by
+  unfold callThen
+  rcases callContract_cases cfg blk ch addr en tr with h1 | ⟨note, o, h1, _⟩
+  · rw [h1]; exact Or.inl rfl
+  · rw [h1]
+    right
+    cases o with
+    | ok p =>
+      obtain ⟨new, e⟩ := trace_grows_processResponse cfg blk fuel p.2 addr
+        (buildAppResponse addr custom p.1).1 (buildAppResponse addr custom p.1).2
+        (tr ++ [⟨addr, en, contractEnv blk addr, note⟩])
+      exact ⟨note, new, e⟩
+    | err => exact ⟨note, [], by simp⟩
+    | panic => exact ⟨note, [], by simp⟩
+    | outOfFuel => exact ⟨note, [], by simp⟩
+
+theorem callThen_trace_known (cfg : Config E) (blk : Block) (fuel : Nat) (ch : Chain E) (addr : Addr)
+    (en : Entry) (custom : Event) (tr : Trace) (cd : ContractData) (code : Code E)
+    (hc : ch.contracts.get? addr = some cd) (hcode : contractCode? cfg cd.codeId = some code) :
+    ∃ note rest, (callThen cfg blk fuel ch addr en custom tr).2 =
+      tr ++ [⟨addr, en, contractEnv blk addr, note⟩] ++ rest := by
+  obtain ⟨note, o, h1⟩ := callContract_known cfg blk ch addr en tr cd code hc hcode
+  unfold callThen
+  rw [h1]
+  cases o with
+  | ok p =>
+    obtain ⟨new, e⟩ := trace_grows_processResponse cfg blk fuel p.2 addr
+      (buildAppResponse addr custom p.1).1 (buildAppResponse addr custom p.1).2
+      (tr ++ [⟨addr, en, contractEnv blk addr, note⟩])
+    exact ⟨note, new, e⟩
+  | err => exact ⟨note, [], by simp⟩
+  | panic => exact ⟨note, [], by simp⟩
+  | outOfFuel => exact ⟨note, [], by simp⟩
+
+theorem no_reply_unless_wanted (cfg : Config E) (blk : Block) (fuel : Nat) (ch : Chain E) (contract : Addr)
+    (sm : SubMsg) (tr : Trace)
+    (h : replyWanted (execute cfg blk fuel ch contract sm.msg tr).1 sm.replyOn = false) :
+    (executeSubmsg cfg blk (fuel + 1) ch contract sm tr).2 = (execute cfg blk fuel ch contract sm.msg tr).2 := by
+  rw [executeSubmsg_succ]
+  generalize execute cfg blk fuel ch contract sm.msg tr = x at h ⊢
+  obtain ⟨o, t⟩ := x
+  cases o with
+  | ok p =>
+    simp only [replyWanted] at h
+    simp [h]
+  | err =>
+    simp only [replyWanted] at h
+    simp [h]
+  | panic => rfl
+  | outOfFuel => rfl
+
+theorem reply_when_wanted (cfg : Config E) (blk : Block) (fuel : Nat) (ch : Chain E) (contract : Addr)
+    (sm : SubMsg) (tr tr₁ : Trace) (r₁ : Outcome (AppResponse × Chain E)) (cd : ContractData) (code : Code E)
+    (h : execute cfg blk (fuel + 1) ch contract sm.msg tr = (r₁, tr₁))
+    (hw : replyWanted r₁ sm.replyOn = true)
+    (hc : (replyState ch r₁).contracts.get? contract = some cd)
+    (hcode : contractCode? cfg cd.codeId = some code) :
+    ∃ note rest,
+      (executeSubmsg cfg blk (fuel + 2) ch contract sm tr).2 =
+        tr₁ ++ [⟨contract, .reply ⟨sm.id, sm.payload, subResultOf r₁⟩, contractEnv blk contract, note⟩] ++ rest := by
+  rw [executeSubmsg_succ cfg blk (fuel + 1), h]
+  cases r₁ with
+  | ok p =>
+    obtain ⟨r, ch1⟩ := p
+    simp only [replyWanted] at hw
+    simp only [replyState] at hc
+    simp only [hw, if_true, subResultOf]
+    rw [reply_succ]
+    obtain ⟨note, rest, e⟩ := callThen_trace_known cfg blk fuel ch1 contract
+      (.reply ⟨sm.id, sm.payload, .ok r.events r.data⟩)
+      { ty := "reply", attrs := [contractAttr contract,
+        ⟨"mode", replyMode ⟨sm.id, sm.payload, .ok r.events r.data⟩⟩] } tr₁ cd code hc hcode
+    refine ⟨note, rest, ?_⟩
+    rw [← e]
+    rcases callThen cfg blk fuel ch1 contract (.reply ⟨sm.id, sm.payload, .ok r.events r.data⟩)
+      { ty := "reply", attrs := [contractAttr contract,
+        ⟨"mode", replyMode ⟨sm.id, sm.payload, .ok r.events r.data⟩⟩] } tr₁ with ⟨o2, t2⟩
+    cases o2 <;> rfl
+  | err =>
+    simp only [replyWanted] at hw
+    simp only [replyState] at hc
+    simp only [hw, if_true, subResultOf]
+    rw [reply_succ]
+    exact callThen_trace_known cfg blk fuel ch contract _ _ tr₁ cd code hc hcode
+  | panic => simp [replyWanted] at hw
+  | outOfFuel => simp [replyWanted] at hw
+
+/-! ## C05 -/
+
+theorem sender_authentic (cfg : Config E) (blk : Block) (fuel : Nat) (ch : Chain E) (sender : Addr)
+    (m : Msg) (tr : Trace) (new : Trace)
+    (h : (execute cfg blk fuel ch sender m tr).2 = tr ++ new) : SendersFrom sender new := by
+  obtain ⟨new', e, _, sf, _⟩ := (specAt cfg blk fuel).1 ch sender m tr
+  rw [h] at e
+  rw [List.append_cancel_left e]
+  exact sf
+
+theorem env_authentic (cfg : Config E) (blk : Block) (fuel : Nat) (ch : Chain E) (sender : Addr)
+    (m : Msg) (tr : Trace) (new : Trace)
+    (h : (execute cfg blk fuel ch sender m tr).2 = tr ++ new) : ∀ e ∈ new, EnvOK blk e := by
+  obtain ⟨new', e, env, _, _⟩ := (specAt cfg blk fuel).1 ch sender m tr
+  rw [h] at e
+  rw [List.append_cancel_left e]
+  exact env
+
+theorem direct_callee (cfg : Config E) (blk : Block) (fuel : Nat) (ch : Chain E)
+    (sender : Addr) (c : String) (msg : Val) (funds : Coins) (tr : Trace) (new : Trace) (e : TraceEntry)
+    (h : (execute cfg blk fuel ch sender (.wasmExecute c msg funds) tr).2 = tr ++ new)
+    (he : new.head? = some e) :
+    e.callee = c ∧ e.entry = .execute ⟨sender, funds⟩ msg := by
+  have hnil : ∀ {x : Trace}, x = tr ++ new → x = tr → False := by
+    intro x h1 h2
+    rw [h2] at h1
+    have : new = [] := by simpa using h1
+    rw [this] at he
+    simp at he
+  cases fuel with
+  | zero => rw [execute_zero] at h; exact (hnil h rfl).elim
+  | succ fuel =>
+    rw [execute_succ_wasmExecute] at h
+    split at h
+    · exact (hnil h rfl).elim
+    · split at h
+      · rw [mapResp_snd] at h
+        rename_i ch1 _
+        rcases callThen_trace cfg blk fuel ch1 c (.execute ⟨sender, funds⟩ msg)
+          { ty := "execute", attrs := [contractAttr c] } tr with h1 | ⟨note, rest, h1⟩
+        · exact (hnil h h1).elim
+        · rw [h1, List.append_assoc] at h
+          have := List.append_cancel_left h
+          rw [← this] at he
+          simp only [List.cons_append, List.nil_append, List.head?_cons, Option.some.injEq] at he
+          rw [← he]
+          exact ⟨rfl, rfl⟩
+      · exact (hnil h rfl).elim
+      · exact (hnil h rfl).elim
+      · exact (hnil h rfl).elim
+
+theorem sendFunds_nonempty (ch ch₁ : Chain E) (sender : Addr) (c : String) (funds : Coins)
+    (hs : sendFunds ch sender c funds = .ok ch₁) (hne : funds ≠ []) :
+    Bank.send ch.bank sender c funds = some ch₁.bank := by
+  unfold sendFunds at hs
+  have : funds.isEmpty = false := by cases funds <;> simp_all
+  rw [this] at hs
+  simp only [bankExecute, Bool.false_eq_true, if_false] at hs
+  cases hb : Bank.send ch.bank sender c funds with
+  | none => rw [hb] at hs; simp at hs
+  | some b =>
+    rw [hb] at hs
+    simp only [Outcome.ok.injEq] at hs
+    rw [← hs]
+
+theorem funds_moved_first (cfg : Config E) (blk : Block) (fuel : Nat) (ch ch₁ : Chain E) (sender : Addr)
+    (c : String) (msg : Val) (funds : Coins) (tr : Trace)
+    (hv : cfg.validAddr c = true) (hs : sendFunds ch sender c funds = .ok ch₁) :
+    execute cfg blk (fuel + 1) ch sender (.wasmExecute c msg funds) tr =
+      (match callContract cfg blk ch₁ c (.execute ⟨sender, funds⟩ msg) tr with
+       | (.ok (resp, ch₂), tr₁) =>
+         (match processResponse cfg blk fuel ch₂ c
+             (buildAppResponse c { ty := "execute", attrs := [contractAttr c] } resp).1
+             (buildAppResponse c { ty := "execute", attrs := [contractAttr c] } resp).2 tr₁ with
+          | (.ok (r, ch₃), tr₂) => (.ok ({ r with data := r.data.map encodeExecuteResponse }, ch₃), tr₂)
+          | other => other)
+       | (.err, tr₁) => (.err, tr₁)
+       | (.panic, tr₁) => (.panic, tr₁)
+       | (.outOfFuel, tr₁) => (.outOfFuel, tr₁)) ∧
+      (funds ≠ [] → Bank.send ch.bank sender c funds = some ch₁.bank) := by
+  refine ⟨?_, sendFunds_nonempty ch ch₁ sender c funds hs⟩
+  rw [execute_succ_wasmExecute, hs]
+  simp only [hv, Bool.not_true, Bool.false_eq_true, if_false]
+  unfold callThen
+  rcases callContract cfg blk ch₁ c (.execute ⟨sender, funds⟩ msg) tr with ⟨o, t⟩
+  cases o with
+  | ok p =>
+    obtain ⟨resp, ch₂⟩ := p
+    simp only []
+    rcases processResponse cfg blk fuel ch₂ c
+      (buildAppResponse c { ty := "execute", attrs := [contractAttr c] } resp).1
+      (buildAppResponse c { ty := "execute", attrs := [contractAttr c] } resp).2 t with ⟨o2, t2⟩
+    cases o2 with
+    | ok p2 => obtain ⟨a, b⟩ := p2; rfl
+    | _ => rfl
+  | _ => rfl
+
+theorem insufficient_funds_no_call (cfg : Config E) (blk : Block) (fuel : Nat) (ch : Chain E) (sender : Addr)
+    (c : String) (msg : Val) (funds : Coins) (tr : Trace)
+    (hne : funds ≠ []) (hs : Bank.send ch.bank sender c funds = none) :
+    execute cfg blk (fuel + 1) ch sender (.wasmExecute c msg funds) tr = (.err, tr) := by
+  rw [execute_succ_wasmExecute]
+  split
+  · rfl
+  · have : sendFunds ch sender c funds = .err := by
+      unfold sendFunds
+      have : funds.isEmpty = false := by cases funds <;> simp_all
+      rw [this]
+      simp only [bankExecute, Bool.false_eq_true, if_false, hs]
+    rw [this]
+
+/-! ## C08 -/
+
+theorem cstore_frame (cfg : Config E) (hf : ExtFrame cfg) (blk : Block) (fuel : Nat) (ch ch' : Chain E)
+    (sender : Addr) (m : Msg) (tr new : Trace) (r : AppResponse)
+    (h : execute cfg blk fuel ch sender m tr = (.ok (r, ch'), tr ++ new))
+    (a : Addr) (ha : ∀ e ∈ new, e.callee ≠ a) : ch'.cstore.get? a = ch.cstore.get? a := by
+  obtain ⟨new', e, _, _, fr⟩ := (specAt cfg blk fuel).1 ch sender m tr
+  rw [h] at e fr
+  have : new = new' := List.append_cancel_left e
+  subst this
+  exact fr hf r ch' rfl a ha
+
+theorem raw_query_reads_window (cfg : Config E) (eq : ExtKind → Chain E → Block → Val → Outcome Val)
+    (blk : Block) (ch : Chain E) (c : String) (k : Val) (hv : cfg.validAddr c = true) :
+    query cfg eq blk ch (.wasmRaw c k) = .ok (.bytes ((((ch.cstore.get? c).getD []).get k).getD [])) := by
+  simp [query, hv]
+
+theorem contract_windows_disjoint (a b : String) (pa pb k : Key)
+    (ha : toLPNested [("wasm".toUTF8.toList), ("contract_data/" ++ a).toUTF8.toList] = .ok pa)
+    (hb : toLPNested [("wasm".toUTF8.toList), ("contract_data/" ++ b).toUTF8.toList] = .ok pb)
+    (hka : pa <+: k) (hkb : pb <+: k) :
+    ("contract_data/" ++ a).toUTF8.toList = ("contract_data/" ++ b).toUTF8.toList := by
+  rcases Prefix.nested_disjoint _ _ pa pb k ha hb hka hkb with h | h
+  · simp only [List.cons_prefix_cons, true_and] at h
+    exact h.1
+  · simp only [List.cons_prefix_cons, true_and] at h
+    exact h.1.symm
+
 end CwMt.Engine
